@@ -29,7 +29,7 @@ def _setup():
 
 
 ALPHABET = "a !&'\"#$\n"
-ALPHABET_DIR = "#a /*\\\"\n"        # second exhaustive block: texts that begin with # (directive-line scanning)
+ALPHABET_DIR = "#a /*\\\"'\n"        # second exhaustive block: texts that begin with # (directive-line scanning)
 
 
 def tok(n):
@@ -39,7 +39,7 @@ def tok(n):
 class C17(Check):
     prop_id = "C17"
     rule = ("(1) exhaustive: every newline-terminated text of <= 6 (quick) / 7 (thorough) characters over "
-            "{a, blank, !, &, ', \", #, $, newline}, and every such text beginning with # over {#, a, blank, /, *, backslash, \", newline}, "
+            "{a, blank, !, &, ', \", #, $, newline}, and every such text beginning with # over {#, a, blank, /, *, backslash, \", ', newline}, "
             "as a .f90 file through FileParser.parse_file; (2) grammar-based "
             "free-form programs: statements with 0-3 continuation lines (with and without leading &, comment / blank / "
             "directive lines interleaved), character literals with doubled quotes and embedded ! & // #, split literals, "
